@@ -70,6 +70,12 @@ def numbers_blob(r, n=None):
 
 def g_xorbytes(spec, r):
     while True:
+        if r.random() < 0.15:
+            # short arrays of pairwise distinct values (S-box / permutation style) next to a key-less -bxor
+            n = r.randint(51, 256)
+            vals = r.sample(range(256), n)
+            yield "xorbytes", b"$s = " + b",".join(str(v).encode() for v in vals) + r.choice([b" -bxor $k", b" -bxor 0", b"; $x -bxor $y"]), None
+            continue
         blob = numbers_blob(r)
         tail = r.choice([b" -bxor $k", b"-bxor", b" -bxor 35", b" -bxor 300", b" -bxor 0", b" -xor 255", b" -bxor 256",
                          b"", b" | % { $_ -bxor 0x41 }"])
@@ -316,6 +322,11 @@ def g_echo(spec, r):
     """The same indicator material in clear AND inside one or two encodings in one input: structurally equal
     sub-trees under different ancestors."""
     while True:
+        if r.random() < 0.05:
+            # a large payload (> 4 KB) met twice in one input under two different encodings
+            big = b" ".join(b"get http://" + netgen.domain(r) + b"/" + netgen.label(r) + b".exe" for _ in range(110))[:4300]
+            yield "echo", big.hex().encode() + b" ; " + base64.b64encode(big), None
+            continue
         core = r.choice([b"http://" + netgen.domain(r) + b"/" + netgen.label(r) + b".exe", netgen.email(r), b"cmd /c " + netgen.exe_name(r),
                          netgen.ipv4(r), b"\\\\" + netgen.domain(r) + b"\\share\\" + netgen.exe_name(r)])
         parts = [core]
@@ -362,9 +373,33 @@ def g_expand(spec, r):
         yield "expand", wrap[0] + e + wrap[1], (None if r.random() < 0.7 else r.choice([1, 2, 3]))
 
 
+def g_overlap(spec, r):
+    """An unchanged indicator and a decoded blob that starts inside it and runs past its end (partially overlapping siblings)."""
+    while True:
+        payload = r.choice([b"Hello from the other side", b"connect " + netgen.ipv4(r) + b" now", netgen.domain(r) + b" and more text"])
+        pad = b" " * ((3 - len(payload) % 3) % 3)
+        b64 = base64.b64encode(payload + pad)
+        k = r.randrange(3)
+        if k == 0:
+            text = netgen.label(r) + b".exe+" + b64          # run "exe+" + base64
+        elif k == 1:
+            text = netgen.label(r) + b".com/" + b64          # run "com/" + base64
+        else:
+            text = b"http://" + netgen.domain(r) + b"/abcd" + b64
+        yield "overlap", r.choice([b"start ", b"", b"x "]) + text + r.choice([b"", b" tail"]), None
+
+
+def g_twopaths(spec, r):
+    while True:
+        host = r.choice([netgen.ipv4(r), netgen.domain(r)])
+        first = b"\\\\" + host + b"\\share\\" + netgen.exe_name(r)
+        second = r.choice([b"c:\\temp\\" + netgen.exe_name(r), b"..\\docs\\" + netgen.label(r) + b".txt", b"\\\\.\\C:\\Test\\" + netgen.exe_name(r)])
+        yield "twopaths", r.choice([b"copy ", b""]) + first + b" " + second + r.choice([b"", b" " + first]), None
+
+
 GENERATORS = {
     "skel": g_skel, "xor": g_xor, "cmd": g_cmd, "pe": g_pe, "xorbytes": g_xorbytes, "matryoshka": g_matryoshka,
-    "nesting": g_nesting, "seedmut": g_seedmut, "soup": g_soup, "large": g_large, "repeat": g_repeat, "url": g_url, "ioc": g_ioc, "layer": g_layer, "ctxdec": g_ctxdec, "nest": g_nest, "plainnest": g_plainnest, "repeatunit": g_repeatunit, "echo": g_echo, "expand": g_expand,
+    "nesting": g_nesting, "seedmut": g_seedmut, "soup": g_soup, "large": g_large, "repeat": g_repeat, "url": g_url, "ioc": g_ioc, "layer": g_layer, "ctxdec": g_ctxdec, "nest": g_nest, "plainnest": g_plainnest, "repeatunit": g_repeatunit, "echo": g_echo, "expand": g_expand, "overlap": g_overlap, "twopaths": g_twopaths,
 }
 
 
